@@ -5,20 +5,73 @@ import (
 	"encoding/json"
 	"fmt"
 	"os"
+	"os/exec"
 	"strings"
 	"sync"
 	"testing"
 
 	"github.com/llir/llvm/ir"
+	"github.com/llir/llvm/ir/constant"
+	"github.com/llir/llvm/ir/types"
 	"pgregory.net/rapid"
 
 	"verif/h/corpus"
+	"verif/h/emit"
 	"verif/h/gen"
 	"verif/h/hx"
+	"verif/h/kf"
 	"verif/h/lx"
 )
 
-func TestMain(m *testing.M) { hx.Main(m, "C13", nil) }
+func TestMain(m *testing.M) {
+	// child mode: provoke the recorded known finding in a separate process (a race provoked in this
+	// process would make the test binary itself fail) and report what the race detector saw.
+	if os.Getenv("VERIF_C13_PROBE") != "" {
+		if firstPrintRaces() {
+			fmt.Println("PROBE-RACE")
+		} else {
+			fmt.Println("PROBE-NORACE")
+		}
+		os.Exit(0)
+	}
+	hx.Main(m, "C13", func() {
+		kfFirstPrint = kf.Activate("KF-C13-first-print-vs-subentity", func(in string) bool {
+			exe, err := os.Executable()
+			if err != nil {
+				return false
+			}
+			dir, _ := os.MkdirTemp(hx.OutDir, "probe")
+			defer os.RemoveAll(dir)
+			cmd := exec.Command(exe, "-test.run", "^$")
+			cmd.Env = append(os.Environ(), "VERIF_C13_PROBE=1", "GORACE=halt_on_error=0 exitcode=0 log_path="+dir+"/race")
+			out, _ := cmd.CombinedOutput()
+			return strings.Contains(string(out), "PROBE-RACE")
+		})
+	})
+}
+
+// firstPrintRaces builds a small module through the API and lets one goroutine print the module for the
+// first time while another prints one of its functions; it reports whether the race detector objected.
+func firstPrintRaces() bool {
+	hx.RaceReport()
+	for rep := 0; rep < 20; rep++ {
+		m := ir.NewModule()
+		g := m.NewGlobalDef("", constant.NewInt(types.I32, 1))
+		f := m.NewFunc("", types.I32)
+		b := f.NewBlock("")
+		v := b.NewLoad(types.I32, g)
+		b.NewRet(v)
+		var wg sync.WaitGroup
+		wg.Add(2)
+		go func() { defer wg.Done(); _ = m.String() }()
+		go func() { defer wg.Done(); _ = f.LLString() }()
+		wg.Wait()
+		if hx.RaceReport() != "" {
+			return true
+		}
+	}
+	return false
+}
 
 // op is one printing call on the shared module.
 type op struct {
@@ -88,6 +141,48 @@ func run(m *ir.Module, o op) (res string, p *lx.Panic) {
 type plan struct {
 	Printed bool   // start state: module already printed once
 	Ops     [][]op // per goroutine
+	// Constructed: the module came from the API, not the parser; a replay parses the text and then
+	// takes the IDs of unnamed globals and locals, and of the metadata definitions listed in
+	// Unnumber, back to "not yet assigned".
+	Constructed bool  `json:",omitempty"`
+	Unnumber    []int `json:",omitempty"`
+}
+
+// unprint takes a parsed module back to the state of one built through the API and never printed.
+func unprint(m *ir.Module, unnumber []int) {
+	type named interface {
+		IsUnnamed() bool
+		SetID(int64)
+	}
+	reset := func(v interface{}) {
+		if n, ok := v.(named); ok && n.IsUnnamed() {
+			n.SetID(0)
+		}
+	}
+	for _, g := range m.Globals {
+		reset(g)
+	}
+	for _, f := range m.Funcs {
+		reset(f)
+		for _, p := range f.Params {
+			reset(p)
+		}
+		for _, b := range f.Blocks {
+			reset(b)
+			for _, i := range b.Insts {
+				reset(i)
+			}
+			reset(b.Term)
+		}
+	}
+	for _, a := range m.Aliases {
+		reset(a)
+	}
+	for _, i := range unnumber {
+		if i < len(m.MetadataDefs) {
+			m.MetadataDefs[i].SetID(-1)
+		}
+	}
 }
 
 func genPlan(rt *rapid.T) plan {
@@ -108,12 +203,23 @@ func genPlan(rt *rapid.T) plan {
 // checkCase parses x into a shared module and a fresh reference copy, runs the plan concurrently and
 // compares every result with what the call returns sequentially.
 func checkCase(t hx.TB, test, x string, pl plan) {
+	checkCaseWith(t, test, x, pl, func() *ir.Module {
+		m, err, p := lx.Parse(x)
+		if err != nil || p != nil {
+			return nil
+		}
+		return m
+	})
+}
+
+// checkCaseWith is checkCase with an arbitrary source of identical fresh modules (parsed or constructed).
+func checkCaseWith(t hx.TB, test, x string, pl plan, mk func() *ir.Module) {
 	pj, _ := json.Marshal(pl)
 	caseText := fmt.Sprintf("; PLAN %s\n%s", pj, x)
 	hx.Trace(test, "ll", caseText)
-	shared, err, p := lx.Parse(x)
-	if err != nil || p != nil {
-		hx.Discard("parser_does_not_accept(judged_by_C01)")
+	shared := mk()
+	if shared == nil {
+		hx.Discard("module_source_fails(judged_elsewhere)")
 		return
 	}
 	// sequential expectations, from fresh copies: one never printed, one printed once
@@ -123,7 +229,10 @@ func checkCase(t hx.TB, test, x string, pl plan) {
 			if pl.Printed && !printed {
 				continue
 			}
-			fresh, _, _ := lx.Parse(x)
+			fresh := mk()
+			if fresh == nil {
+				return nil
+			}
 			if printed {
 				if _, pp := lx.Print(fresh); pp != nil {
 					return nil
@@ -284,6 +393,17 @@ func TestReplay(t *testing.T) {
 		var pl plan
 		if json.Unmarshal([]byte(text[7:nl]), &pl) == nil {
 			for rep := 0; rep < 30; rep++ {
+				if pl.Constructed {
+					checkCaseWith(t, "Replay", text[nl+1:], pl, func() *ir.Module {
+						m, err, p := lx.Parse(text[nl+1:])
+						if err != nil || p != nil {
+							return nil
+						}
+						unprint(m, pl.Unnumber)
+						return m
+					})
+					continue
+				}
 				checkCase(t, "Replay", text[nl+1:], pl)
 			}
 		}
@@ -298,3 +418,62 @@ func TestReplay(t *testing.T) {
 		}
 	}
 }
+
+// TestConstructedModules: modules built through the API (never printed: unnamed globals and locals have no
+// IDs yet, a drawn subset of the metadata definitions is unnumbered) printed by several goroutines.
+func TestConstructedModules(t *testing.T) {
+	const test = "ConstructedModules"
+	hx.Rule(test, "modules built through the public API from generated programs (IDs of unnamed globals, locals and of a drawn subset of metadata definitions not yet assigned) x start state x 2..8 goroutines. From the never-printed state the plan uses whole-module calls (String, WriteTo); sub-entity calls (Func/Block/instruction LLString, Ident) run concurrently with a first whole-module print only while known finding KF-C13-first-print-vs-subentity does not reproduce. Same oracles as ConcurrentPrinters")
+	hx.Check(t, test, hx.N(100, 2500), func(rt *rapid.T) {
+		cfg := gen.DefaultCfg()
+		cfg.UnnamedBias = 7
+		cfg.ForceMD = rapid.IntRange(0, 3).Draw(rt, "forcemd") != 0
+		cfg.Off = map[string]bool{"retattr-align": true, "freeze-metadata": true}
+		am_, _ := gen.Module(rt, cfg)
+		am_.Order = nil
+		unnumber := map[int]bool{}
+		var unl []int
+		for i := range am_.MDs {
+			if rapid.IntRange(0, 2).Draw(rt, "unnumber") != 0 {
+				unnumber[i] = true
+				unl = append(unl, i)
+			}
+		}
+		mk := func() *ir.Module {
+			var m *ir.Module
+			if p := lx.Guard(func() { m, _ = emit.Module(am_) }); p != nil {
+				return nil
+			}
+			for i, d := range m.MetadataDefs {
+				if unnumber[i] {
+					d.SetID(-1)
+				}
+			}
+			return m
+		}
+		pl := genPlan(rt)
+		pl.Constructed, pl.Unnumber = true, unl
+		// the never-printed state is what a constructed module adds: start there three times out of four
+		if pl.Printed && rapid.IntRange(0, 1).Draw(rt, "unprinted") == 0 {
+			pl.Printed = false
+		}
+		if !pl.Printed && kfFirstPrint {
+			// whole-module calls only
+			for g := range pl.Ops {
+				for k := range pl.Ops[g] {
+					if pl.Ops[g][k].Kind != "String" && pl.Ops[g][k].Kind != "WriteTo" {
+						pl.Ops[g][k].Kind = "String"
+						kf.Hit("KF-C13-first-print-vs-subentity")
+					}
+				}
+			}
+		}
+		hx.Eval(1)
+		checkCaseWith(rt, test, am_.Text(), pl, mk)
+		hx.NonTrivial(fmt.Sprintf("%v|%v|%s", pl, unnumber, am_.Text()))
+		hx.Hist(fmt.Sprintf("constructed/start_printed/%v", pl.Printed))
+		hx.Hist(fmt.Sprintf("constructed/never_printed_with_unnumbered_metadata/%v", !pl.Printed && len(unl) > 0))
+	})
+}
+
+var kfFirstPrint bool
